@@ -457,3 +457,149 @@ def _never_err(ctx, f, consts, depth, local=0, _seen=None):
         if not guarded:
             return False, "%s can produce an error at %s (%s) on a path that does not depend on an argument the caller fixes to false" % (f.path, f.where(loc), what)
     return True, "every error exit of %s is guarded by a parameter passed as `false`" % f.path
+
+
+# ---------------------------------------------------------------------------
+# V-panic: closed vocabulary of griddle's own panic sites
+# ---------------------------------------------------------------------------
+PANIC_DOC_UNWRAP = {"replace_entry", "replace_key"}     # hashbrown-documented: "panics if this OccupiedEntry was created through Entry::insert"
+
+
+def _is_capacity_overflow_panic(ctx, b, c):
+    """expect()/unwrap() of an Option that comes from checked size arithmetic only, in a body that allocates a new main table"""
+    from rules_typestate import replacer_sites
+    from rules_both import slice_calls_deep
+    if b.path not in {rb.path for rb, _, _ in replacer_sites(ctx)}:
+        return False
+    calls = slice_calls_deep(ctx, b, c.loc, [c.args[0]])
+    names = {(x.name or "") for x in calls}
+    arith = {n for n in names if n.startswith(("core::num::", "usize::")) and n.split("::")[-1].startswith("checked_")}
+    other = {n for n in names if n not in arith and not n.startswith("core::option::Option::") and not n.startswith(("hashbrown::raw::RawTable::len",))
+             and not (n.startswith("core::cmp::") or n.endswith("::max") or n.endswith("::min"))}
+    return bool(arith) and not other
+
+
+def rule_v_panic(ctx):
+    R = RuleResult("V-panic", "every place where griddle's own code can panic belongs to a closed set of classes, each documented or tied to the rule that "
+                   "shows it unreachable: Index::index on a missing key and OccupiedEntry::replace_entry/replace_key on an entry made by insert "
+                   "(documented); expect() on the guarded in-place try_reserve (S-reserve); the all-profile assertion `no old table pending` (S-full); "
+                   "unreachable!() after a located bucket said `old table` (K-use) and in the stub hasher of the in-place reserve (S-reserve); divisions "
+                   "by a non-zero constant; debug-only assertions (G-pure, T-dbg); overflow checks (O-wrap)")
+    from engine import MAIN, in_macro as in_mac
+    from rules_misc import _debug_only_blocks, _region_blocks
+    from rules_typestate import option_test_edges, N as N_, rule_t_assume
+    from rules_protocol import HBT as HBT_
+    T = ctx.facts.types
+    ro = ctx.roles
+    assumed_sites = {i["site"] for i in rule_t_assume(ctx).instances}
+
+    def diverging_stub(fb):
+        """the body does nothing but panic with unreachable!()"""
+        cs = [c for c in ctx.calls(fb) if not fb.is_cleanup(c.loc.bb)]
+        return bool(cs) and not fb.return_blocks() and all(in_mac(c.t["span"], "unreachable") for c in cs)
+
+    def stub_uses_ok(fb):
+        """every use of the stub is as an argument of hashbrown's reserve/try_reserve on the main table"""
+        uses = 0
+        for b2 in ctx.facts.bodies.values():
+            for c in ctx.calls(b2):
+                if fb in c.closure_args() or fb in c.fn_value_args():
+                    uses += 1
+                    if not (c.tname in (HBT_ + "reserve", HBT_ + "try_reserve") and ctx.role(b2, c.arg_path(0)) == MAIN):
+                        return False
+        return uses > 0
+
+    n = 0
+    for b in ctx.facts.bodies.values():
+        dbg = set()
+        for sw, d_, rel, is_da in _debug_only_blocks(ctx, b):
+            dbg |= _region_blocks(b, d_, rel)
+        stub = diverging_stub(b)
+        for bb in sorted(b.reachable()):
+            if b.is_cleanup(bb):
+                continue
+            t = b.term(bb)
+            kind, where, detail = None, None, None
+            if t["k"] == "assert" and t["msg"] not in ("overflow", "overflow_neg"):
+                kind = t["msg"]
+                where = b.where(Loc(bb, len(b.stmts(bb))))
+            elif t["k"] == "call":
+                c = ctx.call_at(b, bb)
+                nm = c.name or ""
+                if nm in ("core::option::Option::unwrap", "core::option::Option::expect", "core::result::Result::unwrap", "core::result::Result::expect",
+                          "core::option::Option::unwrap_unchecked", "core::result::Result::unwrap_unchecked"):
+                    kind = nm.split("::")[-2] + "::" + nm.split("::")[-1]
+                    where = c.where()
+                elif nm.startswith("core::panicking::") and c.target is None:
+                    mac = [m.split("::")[-1] for m in c.t["span"]["macros"]]
+                    kind = next((m for m in reversed(mac) if m in ("assert", "assert_eq", "assert_ne", "unreachable", "panic", "unimplemented", "todo",
+                                                                   "debug_assert", "debug_assert_eq", "debug_assert_ne")), nm.split("::")[-1])
+                    where = c.where()
+            if kind is None:
+                continue
+            n += 1
+            key = "%s:%s" % (b.path, kind)
+            ok = None
+            if bb in dbg or kind.startswith("debug_assert") or in_mac(t["span"], "debug_assert", "debug_assert_eq", "debug_assert_ne"):
+                ok = "debug-only (G-pure / T-dbg)"
+            elif kind in ("div_zero", "rem_zero"):
+                # assert(!(divisor == 0)): the condition is `Eq(divisor, 0)`
+                d = b.source_def(t["cond"])
+                dv = None
+                if d is not None and d[1] == "assign" and d[2]["rv"]["k"] == "binop" and d[2]["rv"]["op"] == "Eq":
+                    for x, y in ((d[2]["rv"]["a"], d[2]["rv"]["b"]), (d[2]["rv"]["b"], d[2]["rv"]["a"])):
+                        if b.op_const(y) == 0 and b.op_const(x) is not None:
+                            dv = b.op_const(x)
+                if dv:
+                    ok = "division by the non-zero constant %d" % dv
+                else:
+                    detail = "a division whose divisor is not a non-zero constant (e.g. a size_of::<T>() that is 0 for zero-sized types)"
+            elif kind in ("Option::unwrap", "Option::expect"):
+                c = ctx.call_at(b, bb)
+                own = ctx.facts.closure_parent(b)
+                if own.raw.get("trait") == "core::ops::Index" and own.name == "index":
+                    ok = "documented: indexing a missing key"
+                else:
+                    p = c.arg_path(0)
+                    st = T[own.raw["self_ty"]].get("adt") if "self_ty" in own.raw else None
+                    fs = p.fields() if p is not None else []
+                    if st in ro.handles and own.name in PANIC_DOC_UNWRAP and p is not None and p.root == 1 and len(fs) == 1 and fs[0][1] == st:
+                        ok = "documented: %s on an entry created by Entry::insert" % own.name
+                    elif _is_capacity_overflow_panic(ctx, b, c):
+                        ok = "documented: capacity overflow while sizing the new table of an infallible reserve (checked size arithmetic)"
+                    else:
+                        detail = "an unwrap/expect of an Option outside the documented ones (Index::index, OccupiedEntry::replace_entry / replace_key)"
+            elif kind in ("Result::unwrap", "Result::expect"):
+                c = ctx.call_at(b, bb)
+                d = b.source_def(c.args[0])
+                if d is not None and d[1] == "call":
+                    sc = ctx.call_at(b, d[0].bb)
+                    if sc.tname == HBT_ + "try_reserve" and ctx.role(b, sc.arg_path(0)) == MAIN:
+                        ok = "expect() on the in-place try_reserve (cannot fail: S-reserve)"
+                if ok is None:
+                    detail = "an unwrap/expect of a Result other than the guarded in-place try_reserve"
+            elif kind == "assert":
+                if where in assumed_sites or any(s_.split(":")[:2] == where.split(":")[:2] for s_ in assumed_sites):
+                    ok = "all-profile assertion about the pending old table (T-assume; S-full shows it cannot fire)"
+                else:
+                    detail = "an assertion that exists in all build profiles and is not about the pending-resize state"
+            elif kind == "unreachable":
+                if stub and stub_uses_ok(b):
+                    ok = "stub hasher handed to the in-place reserve only (never called: S-reserve)"
+                else:
+                    # reached on the `no old table` edge in a body that was handed a located bucket
+                    has_b = any(T[b.locals[l]["ty"]].get("adt") == ro.B for l in range(1, b.arg_count + 1))
+                    edges = option_test_edges(ctx, b, lambda p_: ro.is_left_place(p_), ignore_debug=False)
+                    on_none = any(v == N_ and (e[1] == bb or e[1] in b.dom().get(bb, set())) and b.preds(e[1], True) == [e[0]] for e, v in edges.items())
+                    if has_b and on_none:
+                        ok = "a located bucket said `old table` but none is pending: excluded by K-new / K-use"
+                    else:
+                        detail = "an unreachable!() that is not the `invalid bucket state` arm nor the stub hasher"
+            else:
+                detail = "a panic of kind `%s`" % kind
+            R.inst(fn=b.path, site=where, kind=kind, verdict=("ok: " + ok) if ok else "VIOLATION")
+            if not ok:
+                R.viol(key, where, "%s can panic here through %s: not one of the documented panics and not tied to a rule that shows it unreachable"
+                       % (b.path, detail))
+    R.floor(8, "panic sites")
+    return R
